@@ -7,19 +7,26 @@ from vpc.core import cN, cbytes, clist, copt, cpair
 
 U256 = 2 ** 256
 CGS = 5                      # CLOSE_GROUP_SIZE; pinned by props/C11.v constants_consistent
+K_VALUE = 20                 # libp2p kad K_VALUE (Consts.repl_k_value in the model's agreement)
 MAX_FETCH = 20               # MAX_PARALLEL_FETCH = K_VALUE; fetcher cases stay below it
 IMPORTS = "Require Import V.lib.Sha256 V.model.Closeness."
 THEOREMS = ["constants_consistent", "sha256_is_256_bit", "convert_is_identity", "distance_is_xor", "dist_sym",
             "dist_zero_iff_digest_eq", "dist_zero_equal_or_collision", "dist_zero_of_equal_bytes", "dist_bound", "dist_triangle", "dist_form_independent",
             "sort_sorted", "sort_perm", "sort_prefix", "sort_returns_n_nearest", "sort_by_address_is_by_key", "sort_error_iff",
             "returns_requested_number_or_error_refuted", "returns_requested_number_or_error_outside_known",
-            "known_short_list_exact", "close_peers_client_spec", "close_peers_node_spec", "range_filter_exact", "fetcher_range_filter_exact",
+            "known_short_list_exact", "close_peers_client_spec", "close_peers_node_spec", "store_farthest_invariant",
+            "store_admission_exact", "store_history_agreement_sound", "closest_k_spec",
+            "closest_k_insertion_order_irrelevant", "range_filter_exact", "fetcher_range_filter_exact",
             "fetcher_order_closest_first", "fetch_schedule_closest_first", "fetch_acceptor_is_spec",
             "fetch_history_agreement_sound", "farthest_on_full_exact", "fullness_bound_invariant", "store_distance_index_exact", "closest_peers_spec",
             "candidates_spec"]
 RULE = ("addresses of all six kinds (peer bytes incl. non-PeerId byte strings, chunk, register, scratchpad, "
         "transaction, raw record key) and the record-key form of each; peers are sha2-256 and identity multihash "
         "PeerIds incl. duplicates, 0-40 per case with boundary sizes 0,1,4,5,6; requested counts 0..|peers|+2; "
+        "get_closest_k_value_local_peers over real routing tables of 0-60 peers inserted in random order (k-buckets shared by "
+        "many, more than K_VALUE-1 peers); admission / eviction histories of a real NodeRecordStore with capacity 2-8: settled "
+        "puts of new keys, removes, restarts while partly filled and while full, incl. the shape far records / restart / fill "
+        "up with nearer ones / a record between the groups / a record beyond; "
         "closest-peers lookups of a client and of a node through a real Network handle whose swarm side answers the query "
         "with 0..20 peers with / without the asker's own id (once or twice, any position), sizes CLOSE_GROUP_SIZE-2..+4, "
         "targets incl. the asker's own address; ranges 0, exact distance of a chosen element -1/0/+1, 2^256-1, random; routing tables of 0-40 peers; "
@@ -270,6 +277,15 @@ def gen(ctx, binary):
         t = {"t": "self"} if (with_self and rng.random() < 0.45) else typed()
         cases.append({"op": "close_peers", "self_seed": rb(rng, 32).hex(), "client": rng.random() < 0.7,
                       "found": found, "a": t})
+    # get_closest_k_value_local_peers over a real routing table: 2..60 peers inserted in random order (about half of
+    # them share the farthest k-bucket, a quarter the next one, ...), more than K_VALUE-1 of them in some cases
+    for i in range(40 * scale):
+        k = rng.choice([0, 1, 2, 3, 5, 6, 7, 8, 10, 15, 19, 20, 21, 30, 45, 60])
+        table = rng.sample(peers[:70], min(k, 70))
+        cases.append({"op": "closest_k", "n": i, "self_seed": rb(rng, 32).hex(), "table": table})
+    # admission / eviction histories of a small record store with restarts
+    for i in range(40 * scale):
+        cases.append(gen_store_hist(rng, peers, i))
     # fetch scheduling histories: 2-3 holders advertising overlapping key sets, a backlog larger than the
     # free capacity, fetches in flight, completions that free a few slots, plain scheduling calls
     for i in range(36 * scale):
@@ -294,6 +310,57 @@ def gen(ctx, binary):
     for perm in itertools.permutations(four):
         cases.append({"op": "closest", "peers": [list(x) for x in perm], "a": t, "num": rng.choice([2, 3, 4]), "range": None})
     return cases
+
+
+def gen_store_hist(rng, peers, i):
+    me = rng.choice(peers)
+    hs = H(bytes.fromhex(me))
+    dist = lambda k: hs ^ H(bytes.fromhex(k))
+    mx = rng.choice([2, 3, 4, 4, 6, 8])
+    pool = [rb(rng, rng.choice([32, 32, 32, 8, 50])).hex() for _ in range(2 * mx + 8)]
+    by = sorted(set(pool), key=dist)
+    held, steps = [], []
+
+    def put(k):
+        if k in held:
+            return
+        steps.append({"s": "put", "key": k, "val": rng.randrange(1, 200)})
+        if len(held) < mx:
+            held.append(k)
+        else:
+            far = max(held, key=dist)
+            if dist(k) <= dist(far):
+                held.remove(far)
+                held.append(k)
+
+    if i % 2 == 0:
+        # some far records without filling up, RESTART, fill up with nearer ones, then one between the groups,
+        # one beyond everything, and a few more
+        nfar = rng.randrange(1, mx)
+        far_keys = rng.sample(by[-(nfar + 3):], nfar)
+        for k in far_keys:
+            put(k)
+        steps.append({"s": "restart"})
+        for k in by[:mx - nfar]:
+            put(k)
+        mid = [k for k in by if k not in held and dist(by[mx - nfar - 1]) < dist(k) < max(dist(x) for x in far_keys)]
+        if mid:
+            put(rng.choice(mid))
+        put(by[-1])
+        if mid:
+            put(rng.choice(mid))
+    for _ in range(rng.choice([3, 6, 10, 16])):
+        r = rng.random()
+        if r < 0.6:
+            put(rng.choice(by))
+        elif r < 0.8 and held:
+            k = rng.choice(held) if rng.random() < 0.8 else rng.choice(by)
+            steps.append({"s": "remove", "key": k})
+            if k in held:
+                held.remove(k)
+        else:
+            steps.append({"s": "restart"})
+    return {"op": "store_hist", "n": i, "self": me, "max": mx, "steps": steps}
 
 
 def gen_fetch_sched(rng, peers, i):
@@ -556,6 +623,73 @@ def oracle(c, o):
         else:
             v.append(("unexpected-error", str(o.get("err"))))
         return v
+    if op == "closest_k":
+        me = o["self"]
+        hs = H(bytes.fromhex(me))
+        d = lambda p: hs ^ H(bytes.fromhex(p))
+        if not set(o["inserted"]) <= set(c["table"]):
+            v.append(("harness", "inserted peers not from the table"))
+        nearest = stable_closest(o["inserted"], d)
+        want = ([me] + nearest)[:K_VALUE]
+        got = o["closest_k"]
+        if o["kad"] != nearest:
+            v.append(("kad-closest-order", "kademlia's closest local peers to our own key are not the table in ascending XOR order"))
+        if got != want:
+            asc = all(d(a) < d(b) for a, b in zip(got[1:], got[2:]))
+            v.append(("closest-k-order", "closest K local peers: %d routing-table peers; %s; expected ourselves followed by the "
+                      "%d nearest in ascending XOR distance (first difference at index %s)" % (
+                          len(o["inserted"]), "not ascending" if not asc else "ascending but not the nearest", len(want) - 1,
+                          next((i for i, (a, b) in enumerate(zip(got, want)) if a != b), min(len(got), len(want))))))
+        else:
+            # what the consumers read off that order
+            if got[:CGS] != ([me] + nearest)[:CGS]:
+                v.append(("closest-k-order", "close group is not ourselves plus the nearest"))
+            if len(got) > CGS + 2 and got[CGS + 1] != nearest[CGS]:
+                v.append(("closest-k-order", "responsible-range reference peer is not the %d-th nearest" % (CGS + 1)))
+        return v
+    if op == "store_hist":
+        hs = H(bytes.fromhex(c["self"]))
+        d = lambda k: hs ^ H(bytes.fromhex(k))
+        mx = c["max"]
+        for i, (st, sp) in enumerate(zip(c["steps"], o["steps"])):
+            pre, post = sp["pre_held"], sp["held"]
+            if sp["res"] not in (0, 1):
+                v.append(("harness", "step %d: unexpected outcome %r" % (i, sp["res"])))
+                continue
+            if st["s"] == "put" and st["key"] not in pre:
+                k = st["key"]
+                if len(pre) < mx:
+                    want_res, want = 0, sorted(pre + [k])
+                else:
+                    far = max(pre, key=d)
+                    if d(k) <= d(far):
+                        want_res, want = 0, sorted([x for x in pre if x != far] + [k])
+                    else:
+                        want_res, want = 1, sorted(pre)
+                if sp["res"] != want_res:
+                    v.append(("store-admission", "step %d: store %s (%d/%d held) a record at distance %d; the farthest held record "
+                              "is at %d" % (i, "refused" if sp["res"] else "admitted", len(pre), mx, d(k),
+                                            max(map(d, pre)) if pre else -1)))
+                elif sorted(post) != want:
+                    gone = [x for x in pre if x not in post]
+                    v.append(("store-eviction", "step %d: full store admitted a record and evicted %s (distance %s); the farthest "
+                              "held record is at %d" % (i, [g[:12] for g in gone], [d(g) for g in gone], max(map(d, pre)))))
+            elif st["s"] == "remove":
+                if sorted(post) != sorted(x for x in pre if x != st["key"]):
+                    v.append(("store-state", "step %d: remove did not remove exactly the key" % i))
+            elif st["s"] == "restart":
+                if sorted(post) != sorted(pre):
+                    v.append(("store-state", "step %d: restart lost or invented records (%d -> %d)" % (i, len(pre), len(post))))
+            # farthest_record == argmax of the integer distance over ALL held records, after every step
+            if post:
+                far = max(post, key=d)
+                if sp["far"] is None or sp["far"][0] != far or int(sp["far"][1]) != d(far) or sp["far_key"] != far:
+                    v.append(("store-farthest", "step %d (%s): farthest record is %s, but the farthest of the %d held records is "
+                              "%s at distance %d" % (i, st["s"], None if sp["far"] is None else (sp["far"][0][:12], sp["far"][1]),
+                                                     len(post), far[:12], d(far))))
+            elif sp["far"] is not None or sp["far_key"] is not None:
+                v.append(("store-farthest", "step %d (%s): empty store reports a farthest record" % (i, st["s"])))
+        return v
     if op == "close_peers":
         me = o["self"]
         if c["a"]["t"] == "self":
@@ -730,6 +864,29 @@ def model_term(c, o):
         if op == "sort_addr":
             return "agree_sort_addr %s %s %s %s %s" % (S, cpeers(c["peers"]), caddr(c["a"], o["abytes"]), cN(c["n"]), res)
         return "agree_sort_key %s %s %s %s %s" % (S, cpeers(c["peers"]), cbytes(c["pre"]), cN(c["n"]), res)
+    if op == "closest_k":
+        return "agree_closest_k %s %s %s %s" % (S, cbytes(o["self"]), cpeers(o["inserted"]), cpeers(o["closest_k"]))
+    if op == "store_hist":
+        kidx = {}
+
+        def ck(k):
+            return "(k %d%%nat)" % kidx.setdefault(k, len(kidx))
+
+        def cfar(f):
+            return "None" if f is None else "(Some (%s, %s))" % (ck(f[0]), cN(int(f[1])))
+        recs = []
+        for st, sp in zip(c["steps"], o["steps"]):
+            if sp["res"] not in (0, 1):
+                return "false"
+            cst = {"put": "(SPut %s)", "remove": "(SRemove %s)"}.get(st["s"], "SRestart")
+            if "%s" in cst:
+                cst = cst % ck(st["key"])
+            recs.append("(%s, (%s, %s), %s, (%s, %s))" % (
+                cst, clist([ck(x) for x in sp["pre_held"]]), cfar(sp["pre_far"]), cN(sp["res"]),
+                clist([ck(x) for x in sp["held"]]), cfar(sp["far"])))
+        ks = sorted(kidx, key=kidx.get)
+        return ("(let ks : list (list N) := %s in let k := fun i : nat => nth i ks [] in "
+                "agree_store_hist %s %s %s ks %s)" % (cpeers(ks), S, cbytes(c["self"]), cN(c["max"]), clist(recs)))
     if op == "close_peers":
         if o["code"] not in (0, 1):
             return "false"
@@ -818,6 +975,10 @@ def show(c, o):
         return "sort_peers_by_address %s %s %s %s" % (S, cpeers(c["peers"]), caddr(c["a"], o["abytes"]), cN(c["n"]))
     if op == "sort_key":
         return "sort_peers_by_key %s %s (%s %s) %s" % (S, cpeers(c["peers"]), S, cbytes(c["pre"]), cN(c["n"]))
+    if op == "closest_k":
+        return "closest_k_value_local_peers %s %s %s %s" % (S, cbytes(o["self"]), cN(K_VALUE), cpeers(o["inserted"]))
+    if op == "store_hist":
+        return "tt"
     if op == "close_peers":
         a = "(APeer %s)" % cbytes(o["abytes"]) if c["a"]["t"] == "self" else caddr(c["a"], o["abytes"])
         return "get_all_close_peers %s %s %s %s %s" % (S, cbytes(o["self"]), "true" if c["client"] else "false",
@@ -856,6 +1017,10 @@ def nontrivial(c, o):
     if op in ("sort_addr", "sort_key"):
         n, k = c["n"], len(c["peers"])
         return (op, o["code"], size_class(k), (n > k) - (n < k), min(n, 8), c.get("a", {}).get("t"))
+    if op == "closest_k":
+        return (op, len(o["inserted"]), len(o["closest_k"]))
+    if op == "store_hist":
+        return (op, c["max"], tuple((st["s"], sp["res"], len(sp["pre_held"]), len(sp["held"])) for st, sp in zip(c["steps"], o["steps"])))
     if op == "close_peers":
         me = o["self"]
         others = len([p for p in o["found_peers"] if p != me])
